@@ -600,6 +600,22 @@ func (w *watch) watch(fsw *fsnotify.Watcher, m *sync.Mutex, refresh func() error
 			if !ok {
 				return
 			}
+			// The watcher reports an error, typically an event queue
+			// overflow: events have been lost, and we cannot know which,
+			// so bring the Cache up to date.
+			m.Lock()
+			if w.watcher == fsw {
+				// The removal of a watched directory may be among the lost
+				// events, in which case its watch is gone without fsnotify
+				// or us knowing: drop all watches and add them again.
+				for dir := range w.tracked {
+					_ = fsw.Remove(dir)
+					w.tracked[dir] = false
+				}
+				w.update(dirErrors)
+				_ = refresh()
+			}
+			m.Unlock()
 		}
 	}
 }
